@@ -38,6 +38,7 @@ type World struct {
 	db   *ContractDB
 	spec map[Mode]string
 	specOnly *concreteRun
+	inferred map[string]ownerRule // owners inferred for undeclared fields (owners.go)
 	virtual  bool // number program points over the inlining tree (fallback, exec.go)
 }
 
